@@ -5,6 +5,7 @@ package main
 import (
 	"fmt"
 	"os"
+	"runtime/debug"
 	"sort"
 	"strings"
 	"time"
@@ -552,6 +553,9 @@ func runJob(w *World, job Job) (res *JobResult) {
 	defer func() {
 		if r := recover(); r != nil {
 			res.EngineErr = fmt.Sprint(r)
+			if os.Getenv("GOSYM_DEBUG") != "" {
+				res.EngineErr += "\n" + string(debug.Stack())
+			}
 		}
 		res.SolverS = (sol.dur - d0).Seconds()
 		res.MaxQueryS = sol.maxQuery.Seconds()
